@@ -743,6 +743,22 @@ func (s *Selection) key(withSpans bool) string {
 // Eval evaluates the script under one reading. inexact reports that a duration literal is not a
 // whole number of nanoseconds (rounding unspecified).
 func Eval(s *Script, db *DB, from, to int64, r Reading) (sel *Selection, inexact bool, err error) {
+	return eval(s, db, from, to, r, false)
+}
+
+// EvalSpanIntersect is NOT a reading of the property: it evaluates `{A} && {B}` the way an INTERSECT of
+// the two selectors' (trace, span, latest matched timestamp) rows does - a trace is kept only when one and
+// the same span is matched by both selectors and both selectors' latest matched spans have the same timestamp. It exists so that a checker can tell that particular, known, defect from any other
+// wrong answer. Only defined for two selectors joined by &&.
+func EvalSpanIntersect(s *Script, db *DB, from, to int64, r Reading) (sel *Selection, err error) {
+	if len(s.Sels) != 2 || s.Ops[0] != "&&" {
+		return nil, fmt.Errorf("reftraceql: span intersection is defined for {A} && {B} only")
+	}
+	sel, _, err = eval(s, db, from, to, r, true)
+	return sel, err
+}
+
+func eval(s *Script, db *DB, from, to int64, r Reading, spanAnd bool) (sel *Selection, inexact bool, err error) {
 	if len(db.Traces) > 64 {
 		return nil, false, fmt.Errorf("reftraceql: more than 64 traces")
 	}
@@ -788,6 +804,26 @@ func Eval(s *Script, db *DB, from, to int64, r Reading) (sel *Selection, inexact
 		}
 	}
 	final := combine(masks, s.Ops, r.ChainAssoc)
+	if spanAnd {
+		final = 0
+		for ti := range db.Traces {
+			// the intersected rows are (trace, span, latest timestamp among the selector's matched spans of the trace)
+			in0 := map[string]bool{}
+			l0, l1 := int64(math.MinInt64), int64(math.MinInt64)
+			for _, sp := range matched[0][ti] {
+				in0[sp.SpanID] = true
+				l0 = max(l0, sp.TS)
+			}
+			for _, sp := range matched[1][ti] {
+				l1 = max(l1, sp.TS)
+			}
+			for _, sp := range matched[1][ti] {
+				if in0[sp.SpanID] && l0 == l1 {
+					final |= 1 << uint(ti)
+				}
+			}
+		}
+	}
 	sel = &Selection{}
 	for ti, tr := range db.Traces {
 		if final&(1<<uint(ti)) == 0 {
